@@ -29,7 +29,7 @@ InstancesOut(es) == Flat(T([i \in 1..Len(es) |-> IF Mine(i) THEN InstOut(es[i], 
 
 \* the instances whose serializations are mutated
 MutInstances(m) ==
-    UNION {{Base(m, c, MutDepth, TRUE), Base(m, c, 1, FALSE)} \cup (IF MutStar THEN Star(m, c, 1, FALSE, "base") \cup Star(m, c, 1, TRUE, "base") ELSE {}) : c \in ConcreteOf(m, m.root)}
+    UNION {{Base(m, c, MutDepth, TRUE), Base(m, c, 1, FALSE)} \cup (IF MutStar THEN Star(m, c, 1, FALSE, "base") ELSE {}) : c \in ConcreteOf(m, m.root)}
 MutOf1(e, i, x, fmt, ms) == T([q \in 1..Len(ms) |-> [mi |-> i, pa |-> e.pa, pb |-> e.pb, fmt |-> fmt, kind |-> ms[q].kind, at |-> ms[q].at, doc |-> ms[q].doc]])
 MutOf(e, i, x) == MutOf1(e, i, x, "json", JRootMutants(e.m, ToJ(e.m, x), e.m.root)) \o MutOf1(e, i, x, "xml", XRootMutants(e.m, ToX(e.m, x), x.cls))
 MutSeq(e, i, xs) == Flat(T([q \in 1..Len(xs) |-> MutOf(e, i, xs[q])]))
